@@ -170,10 +170,16 @@ CHECKS = {
             "unchanged, store inside the object) and C10_set_leaf_again (closure under sequences of assignments); "
             "C10_scalar_set_get / C10_scalar_frame, C10_other_parts_unchanged(_string)_partial (any object whose extent is disjoint "
             "from the assigned slot reads as before), C10_sizes_unchanged. leafAt / updAt are executed against the library on every "
-            "generated scalar assignment. C10_node_update (reference-graph proof model, component rg): `_update` of a node from a node "
+            "generated scalar assignment. C10_set_part_at_path (set a WHOLE nested struct / array / string of equal size: if the place of "
+            "the part at any path receives an image of a conforming value of the same size and nothing else changes, a view of the "
+            "whole object reads the value with exactly that part replaced - `setAt` - and keeps its size) and C10_assign_part_by_copy "
+            "(the same for the binary copy of an existing object that `_update` performs); partAt / setAt are executed against the "
+            "library on every accepted equal-size whole-part assignment of the reference-free stream. C10_node_update (reference-graph proof model, component rg): `_update` of a node from a node "
             "of the same class allocates nothing, makes the fields agree (references: the same referents), keeps the reference-graph "
             "invariant - no reference of any other node is disturbed.",
-            "Partial: whole nested struct/array assignment and paths through references are byte-level theorems (C11) + tie + oracle; "
+            "Partial: whole-part assignments of ANOTHER size that still fit (strings into their capacity: C11 theorems), the dict / "
+            "item-wise form of a compound assignment (it writes the same image, but that is tie + oracle, not a theorem) and paths "
+            "through references are byte-level theorems + tie + oracle; "
             "assignments interleaved with buffer growth rest on C04 (bytes preserved) + C01_read_local; known finding O-30 (earlier "
             "views keep stale cached offsets after a same-size replacement that divides the element differently).",
             "7/C10"),
